@@ -176,6 +176,36 @@ pub enum WOp {
     /// Write::write_vectored with slices of these lengths, repeated on the remainder until everything is
     /// accepted (what write_all_vectored does)
     Vectored(Vec<usize>),
+    /// `write!` through the `Write` impl (`write_fmt`): template `kind` with arguments drawn from `seed`
+    /// (chars and strings beyond ASCII, non-ASCII fill characters, padded integers, Debug escapes); what
+    /// `format!` gives for the same arguments is what the sink has to receive
+    Fmt { kind: u8, seed: u64 },
+}
+
+const FMT_KINDS: u8 = 10;
+const FMT_CHARS: [char; 12] = ['a', '\u{e9}', '\u{2500}', '\u{1f600}', '\u{7f}', '\u{80}', '\u{df}', '\u{ff}', '\u{100}', '0', '\n', '\u{7ff}'];
+
+/// Hands the `fmt::Arguments` of template `kind` (arguments drawn from `seed`) to `f`, exactly once.
+pub fn fmt_apply(kind: u8, seed: u64, f: &mut dyn FnMut(std::fmt::Arguments<'_>)) {
+    let mut r = Rng::new(seed);
+    let c = *r.pick(&FMT_CHARS);
+    let c2 = *r.pick(&FMT_CHARS);
+    let s: String = (0..r.usize(14)).map(|_| *r.pick(&FMT_CHARS)).collect();
+    let n = r.next() as i64 >> r.usize(64);
+    let m = r.next() >> r.usize(64);
+    let w = r.usize(24);
+    match kind % FMT_KINDS {
+        0 => f(format_args!("{}", c)),
+        1 => f(format_args!("{}{}{}", s, c, c2)),
+        2 => f(format_args!("{:\u{2500}>1$}", n, w)),
+        3 => f(format_args!("{:\u{e9}<1$}|", s, w)),
+        4 => f(format_args!("{:?}{:?}", s, c)),
+        5 => f(format_args!("{:>1$}|{2}", c, w, m)),
+        6 => f(format_args!("{:\u{1f600}^1$}", c2, w)),
+        7 => f(format_args!("p cnf {} {}\n", m, n)),
+        8 => f(format_args!("{0}{0}{1:\u{ff}^2$}{0}", c, m, w)),
+        _ => f(format_args!("c {}\u{e9}{:#x} {:+}\n", s, m, n)),
+    }
 }
 
 pub fn gen_history(rng: &mut Rng, cap: usize, max_ops: usize) -> Vec<WOp> {
@@ -226,7 +256,11 @@ pub fn gen_history(rng: &mut Rng, cap: usize, max_ops: usize) -> Vec<WOp> {
                     len,
                 }
             }
-            40..=42 => {
+            42 => WOp::Fmt {
+                kind: rng.below(FMT_KINDS as u64) as u8,
+                seed: rng.next(),
+            },
+            40..=41 => {
                 // slices around the room that is left in the buffer: fits / does not fit / fits again
                 let n = 1 + rng.usize(5);
                 WOp::Vectored(
@@ -298,6 +332,8 @@ pub struct RunResult {
     pub dropped_unwinding: bool,
     pub after_a_writer_lost_to_a_sink_panic: bool,
     pub vectored_ops: u64,
+    pub fmt_ops: u64,
+    pub fmt_non_ascii: u64,
 }
 
 /// Apply `ops` to a fresh writer over a sink with `policy`; judge after every operation.
@@ -339,6 +375,8 @@ pub fn run_history(ops: &[WOp], policy: SinkPolicy, sink_seed: u64, cap: usize, 
     let mut ops_done = 0usize;
     let mut boundary_fills = 0u64;
     let mut vectored_ops = 0u64;
+    let mut fmt_ops = 0u64;
+    let mut fmt_non_ascii = 0u64;
 
     // judge the sink events produced by one client operation
     let mut judge = |expected: &Vec<u8>,
@@ -516,6 +554,24 @@ pub fn run_history(ops: &[WOp], policy: SinkPolicy, sink_seed: u64, cap: usize, 
                     problems.push(format!("{}: {}", opname, b));
                 }
                 vectored_ops += 1;
+                buffered_model = None;
+                r.is_err()
+            }
+            WOp::Fmt { kind, seed } => {
+                let mut text = String::new();
+                fmt_apply(*kind, *seed, &mut |a| {
+                    let _ = std::fmt::Write::write_fmt(&mut text, a);
+                });
+                expected.extend_from_slice(text.as_bytes());
+                let mut res: std::io::Result<()> = Ok(());
+                let r = sut_caught(|| fmt_apply(*kind, *seed, &mut |a| res = wr.write_fmt(a)));
+                if let Err(e) = &res {
+                    problems.push(format!("{}: write! returned an error: {}", opname, e));
+                }
+                fmt_ops += 1;
+                if !text.is_ascii() {
+                    fmt_non_ascii += 1;
+                }
                 buffered_model = None;
                 r.is_err()
             }
@@ -780,6 +836,8 @@ pub fn run_history(ops: &[WOp], policy: SinkPolicy, sink_seed: u64, cap: usize, 
         dropped_unwinding,
         after_a_writer_lost_to_a_sink_panic,
         vectored_ops,
+        fmt_ops,
+        fmt_non_ascii,
     }
 }
 
@@ -923,6 +981,8 @@ impl Monitor for C11 {
             rep.count("buf_write_ptr_null", r.ptr_null);
             rep.count("boundary_fills", r.boundary_fills);
             rep.count("client_write_vectored_ops", r.vectored_ops);
+            rep.count("client_write_fmt_ops", r.fmt_ops);
+            rep.count("client_write_fmt_ops_with_non_ascii_output", r.fmt_non_ascii);
             if r.dropped_unwinding {
                 rep.inc("writers_dropped_by_unwinding_from_a_client_panic");
             }
